@@ -13,6 +13,29 @@
    contract operators (InitAllowed, LoadExpect, DefaultsStated, DefaultsInEffect, RunExpect) on what the
    real code did.  Verdicts come from 2 and 3 only; a difference between the code and the code-shaped
    model that the contract accepts is reported as drift.
+
+Coverage table (statement clause / quantifier dimension -> where it is explored -> what is still thin)
+  initial state of the target path   start: absent, empty, valid, garbage, dir, non-empty dir, live symlink, dangling
+                                     symlink, byte-identical twin, named pipe; decoy at the lexically cleaned place.
+                                     THIN: device nodes, read-only directory / file (checks run as root), sockets.
+  --config target paths              14 classes: default, relative, ./.., absolute, sub-dir, missing parent, .yaml,
+                                     --config=, flag after the sub-command, cwd below the module root, symlink/..
+                                     (rel+abs), through a symlinked dir, double slash.  THIN: MOCKERY_CONFIG as the
+                                     ONLY source of the path (statement names --config; env class "config" only checks
+                                     that the flag/default target is still the one written), non-UTF-8 / very long paths.
+  package-path strings               66 fixed (YAML indicators, scalars look-alikes, schema words, multi-line, unicode,
+                                     327 / 5999 chars, 300 words) + seed-dependent random ones + module paths that are
+                                     themselves YAML scalars (true, 123, ...).  THIN: invalid UTF-8, NUL (argv cannot).
+  argument shapes                    one package; none; two (either outcome, never a failure that leaves a file).
+  histories                          Init;Init, Init(a);Init(b), Init;Load, Init;Run;Init, Init;Run;Run, load / run from
+                                     a sub-directory; n = 2,3,5,8 concurrent inits (TLC all interleavings, real runs sampled).
+                                     THIN: init concurrent with a running `mockery`; crash in the middle of init.
+  ambient configuration              12 MOCKERY_* classes + a persistent flag (--log-level) while init runs.
+                                     THIN: other persistent flags do not exist today.
+  "accepted by mockery itself"       showconfig (strict loader) + PyYAML on every judged load.
+  "documented defaults"              docs init example + parameter table (cross-checked with docs at start-up).
+  "plain run mocks all interfaces"   exported/unexported/generic/embedding interfaces in 2 files, non-interfaces;
+                                     ancestor configs 1-2 levels up.  THIN: the mocks are not compiled here (C01).
 """
 import json
 import os
